@@ -640,7 +640,13 @@ func (ls *LState) raiseError(level int, format string, args ...interface{}) {
 		message = fmt.Sprintf(format, args...)
 	}
 	if level > 0 {
-		message = fmt.Sprintf("%v %v", ls.where(level-1, true), message)
+		lv := level - 1
+		if dbg, ok := ls.GetStack(0); ok && dbg.frame.Fn.IsG {
+			// raised by a Go function (error, assert, argument checks): level 1 is the function
+			// that called it, level 2 the caller of that function
+			lv = level
+		}
+		message = fmt.Sprintf("%v %v", ls.where(lv, true), message)
 	}
 	if ls.reg.IsFull() {
 		// if the registry is full then it won't be possible to push a value, in this case, force a larger size
